@@ -499,6 +499,151 @@ def check_C07(v, tier, seed):
     return cov
 
 
+def check_C09(v, tier, seed):
+    args = ["reopen", "--seed", str(seed)] + (["--thorough"] if tier == "thorough" else [])
+    runs = [Run("C09-reopen", args)]
+    if tier == "thorough":
+        runs.append(Run("C09-reopen-enosys", args + ["--no-openat2"]))
+    concrete = set()
+    same_inode = 0
+    for r in runs:
+        for c in r.cases:
+            msg = None
+            flags = int(c.op[2])
+            creation = flags & (0o100 | 0o200) or (flags & 0o20200000) == 0o20200000
+            h = c.handle or {}
+            d = res_fd(c)
+            if creation:
+                if c.res[:2] != ["err", "InvalidArgument"]:
+                    msg = f"creation flags not refused: {' '.join(c.res[:4])}"
+                elif c.events:
+                    msg = "system calls made although creation flags must be refused up front"
+            elif h.get("kind") == "l":
+                if c.res[:3] != ["err", "OsError", "40"]:
+                    msg = f"reopen of a symlink handle did not fail with ELOOP: {' '.join(c.res[:4])}"
+            elif d is not None:
+                if d.get("label") != h.get("label") or d.get("kind") != h.get("kind"):
+                    msg = f"reopen returned another object: handle {h.get('label')}/{h.get('kind')} result {d.get('label')}/{d.get('kind')}"
+                elif d.get("cloexec") != "1":
+                    msg = "reopened descriptor is not close-on-exec"
+                else:
+                    fl = int(d.get("fl", "0"))
+                    if flags & 0o10000000:
+                        if not fl & 0o10000000:
+                            msg = "O_PATH requested but not obtained"
+                    elif (fl & 3) != (flags & 3):
+                        msg = f"access mode differs: requested {flags & 3} got {fl & 3}"
+                    for bit, name in ((0o2000, "O_APPEND"), (0o4000, "O_NONBLOCK"), (0o1000000, "O_NOATIME"), (0o200000, "O_DIRECTORY")):
+                        if not msg and not (flags & 0o10000000) and bool(fl & bit) != bool(flags & bit):
+                            msg = f"status flag {name} differs: requested {bool(flags & bit)} got {bool(fl & bit)}"
+                    if not msg:
+                        same_inode += 1
+            if msg:
+                facts = case_facts(c)
+                facts.update({"kind": "oracle", "oracle": msg, "fdnum": c.meta.get("fdnum"), "history": c.meta.get("history"),
+                              "target": c.meta.get("target")})
+                v.fail(facts, case_replay(c, msg))
+                concrete.add((r.name, c.id))
+    broken = generic_tie(v, runs, concrete)
+    cov = coverage_of(runs, nontrivial=lambda c: True,
+                      key=lambda c: (tuple(sorted(c.meta.items())), tuple(c.op)))
+    cov["rule"] = ("handles to {file, dir, fifo, socket, symlink (nofollow), file through a link} x forced descriptor numbers "
+                   "{0,1,2,3,...,1023} (dup3) x history applied to the handle's path between resolve and reopen "
+                   "{none, rename, replace by another file, unlink} x flag set; oracle: (st_dev, st_ino), access mode, status flags "
+                   "and FD_CLOEXEC of the result vs the handle")
+    cov["tie_mismatches"] = broken
+    cov["reopens_returning_the_handles_inode"] = same_inode
+    return cov
+
+
+C08_ENVS = [
+    ("default", None),
+    ("hidepid1", "hidepid=1"),
+    ("hidepid2", "hidepid=2"),
+    ("ptraceable", "hidepid=ptraceable"),
+    ("subsetpid", "subset=pid"),
+    ("subset-hidepid2", "subset=pid,hidepid=2"),
+]
+
+
+def check_C08(v, tier, seed):
+    """privilege x host /proc options matrix, each in its own mount+pid namespace."""
+    import shutil
+    import tempfile
+    tmp = tempfile.mkdtemp(prefix="vh-c08-", dir="/tmp")
+    os.chmod(tmp, 0o777)
+    runs = []
+    skipped = []
+    try:
+        for label, opts in C08_ENVS:
+            for unpriv in (False, True):
+                name = f"{label}-{'nobody' if unpriv else 'root'}"
+                out = os.path.join(tmp, name + ".txt")
+                harness = f"{vlib.HARNESS_BIN} proc-matrix --label {name} --work {tmp}/w-{name} --out {out}"
+                if unpriv:
+                    harness = "setpriv --reuid=65534 --regid=65534 --clear-groups " + harness
+                mount = f"mount -t proc -o {opts} proc /proc" if opts else "mount -t proc proc /proc"
+                rc, log = vlib.sh(["unshare", "-m", "-p", "-f", "sh", "-c", f"{mount} && {harness}"], timeout=600)
+                if rc != 0 or not os.path.exists(out):
+                    skipped.append(f"{name}: rc={rc} {log[-200:]}")
+                    continue
+                r = Run.__new__(Run)
+                r.name = f"C08-{name}"
+                r.tpath = os.path.join(CACHE, "runs", f"C08-{name}.txt")
+                r.opath = os.path.join(CACHE, "runs", f"C08-{name}.out")
+                os.makedirs(os.path.dirname(r.tpath), exist_ok=True)
+                shutil.copy(out, r.tpath)
+                r.cases = parse_cases(r.tpath)
+                r.verdicts, r.extra = run_model(r.tpath, r.opath)
+                r.by_id = {c.id: c for c in r.cases}
+                runs.append(r)
+    finally:
+        shutil.rmtree(tmp, ignore_errors=True)
+    concrete = set()
+    peak_handles = 0
+    peak_calls = 0
+    for r in runs:
+        for c in r.cases:
+            msg = None
+            cls = c.meta.get("class")
+            created = sum(1 for call, resp in c.events
+                          if call[0] in ("fsmount", "open_tree") and resp[0] == "fd") + \
+                sum(1 for call, resp in c.events
+                    if call[0] == "openat" and resp[0] == "fd" and len(call) > 4 and call[4] == "x2f70726f63")
+            peak_handles = max(peak_handles, created)
+            peak_calls = max(peak_calls, len(c.events))
+            if created > 1:
+                msg = f"{created} procfs handles were created during one lookup"
+            elif len(c.events) > 400:
+                msg = f"{len(c.events)} system calls for one lookup"
+            elif cls == "missing" and c.res[:3] != ["err", "OsError", "2"]:
+                msg = f"a missing path is not reported as ENOENT: {' '.join(c.res[:3])}"
+            elif c.res[:1] == ["err"] and c.res[:3] != ["err", "OsError", "2"] and not (
+                    cls == "existing-or-masked" and c.res[:3] in (["err", "OsError", "1"], ["err", "OsError", "13"])):
+                # (hidepid=1 answers EPERM for other processes' directories)
+                msg = f"unexpected error: {' '.join(c.res[:3])}"
+            elif c.res[:3] == ["err", "OsError", "2"] and cls != "missing" and c.meta.get("host_visible") == "1":
+                msg = "ENOENT for a path that exists on the caller's /proc"
+            if msg:
+                facts = proc_facts(c)
+                facts.update({"kind": "oracle", "oracle": msg})
+                v.fail(facts, case_replay(c, msg))
+                concrete.add((r.name, c.id))
+    broken = generic_tie(v, runs, concrete)
+    cov = coverage_of(runs, nontrivial=lambda c: True,
+                      key=lambda c: (c.meta.get("env"), c.meta.get("handle"), c.cfg.get("hemu"), tuple(c.op)))
+    cov["rule"] = ("each of {default, hidepid=1, hidepid=2, hidepid=ptraceable, subset=pid, subset=pid+hidepid=2} is mounted as /proc "
+                   "in a fresh mount+pid namespace, and the matrix handle constructor x resolver x base x {existing, missing, "
+                   "masked-but-existing} sub-path is run as root and as uid 65534 (which cannot create private procfs mounts)")
+    cov["tie_mismatches"] = broken
+    cov["environments_run"] = len(runs)
+    cov["environments_skipped"] = skipped
+    cov["peak_handles_created_in_one_call"] = peak_handles
+    cov["peak_syscalls_in_one_call"] = peak_calls
+    cov["exhaustive"] = not skipped
+    return cov
+
+
 SYSCTL_PSL = "/proc/sys/fs/protected_symlinks"
 
 
@@ -796,6 +941,8 @@ PROPS = {
     "C05": check_C05,
     "C06": check_C06,
     "C07": check_C07,
+    "C08": check_C08,
+    "C09": check_C09,
     "C11": check_C11,
     "C15": check_C15,
     "C16": check_C16,
